@@ -210,4 +210,5 @@ def critical_values(d, field):
             out.update(frac(c) for c in n["edges"])
         elif k == "Stack":
             out.update(frac(c) for c in n["thresholds"])
-    return out
+    # exact regime: only positions that every dyadic gamma maps to an exactly representable float
+    return {v for v in out if v.denominator & (v.denominator - 1) == 0}
